@@ -3,9 +3,9 @@
 From TL Require Import Lib.Base Model.PathLocTypes Model.PathLoc.
 
 Definition pathloc_actual : quirks := {|
-  q_excl_all_parts := true;
+  q_excl_all_parts := false;        (* repaired: fix b20520c (the model reads the scope from the source: Gen.hard_exclusion_scope) *)
   q_ignore_no_reroot := true;
   q_linter_ignore_full_path := true;
-  q_fp_relative_unchanged := true;
+  q_fp_relative_unchanged := false; (* repaired: fix 12368d4 (Gen.fp_relative_paths_rerooted) *)
   q_test_marker_full_path := true;
   q_rule_parser_cwd := true |}.
